@@ -655,6 +655,16 @@ def run_process(
                         if scn.get("xp_out"):
                             kw["xp"] = xp_of(scn["xp_out"])
                         kw["return_history"] = True
+                        afc = scn.get("aspire_first_call")
+                        if afc and resume is None:
+                            # the same Aspire instance first serves another sample_posterior call with the same sampler type
+                            # (its result is discarded): nothing of it may leak into the judged call
+                            kw1 = copy.deepcopy(afc)
+                            kw1.update(call_kw)
+                            if "rng" in kw:
+                                kw1["rng"] = make_generator(int(scn["seeds"]["rng"]) + 17, trace=None, name="first_call")
+                            A.sample_posterior(scn["n_samples"], sampler=sampler_name, **kw1)
+                            trace.log("first_call_done", via="aspire")
                         if ck["mode"] == "auto":
                             with (A.auto_checkpoint(file_path, every=ck["every"]) if auto_ctx is None else contextlib.nullcontext()):
                                 if ck.get("earlier_call_in_context") and resume is None:
